@@ -106,3 +106,17 @@ Theorem C02_step_order_main_rpe_run : StepsC02.main_rpe_run =
 Proof. reflexivity. Qed.
 Print Assumptions C02_step_order_main_rpe_run.
 
+(* ---- symmetry (added after every property had a check): every RPE relation except the ratio gives the same values
+   when the two trajectories exchange roles; the ratio does not, because it divides by the step length of the trajectory
+   in the reference role ---- *)
+Theorem C02_symmetric_in_the_two_trajectories : forall rel pairs (ref est : list PoseR),
+  rel <> point_distance_error_ratio ->
+  Forall (fun p => Orth (prot p)) ref -> Forall (fun p => Orth (prot p)) est ->
+  rpeR rel pairs est ref = rpeR rel pairs ref est.
+Proof. exact rpe_swap. Qed.
+Print Assumptions C02_symmetric_in_the_two_trajectories.
+Theorem C02_ratio_depends_on_which_trajectory_is_the_reference : exists (ref est : list PoseR) pairs,
+  Forall (fun p => Orth (prot p)) ref /\ Forall (fun p => Orth (prot p)) est /\
+  rpeR point_distance_error_ratio pairs est ref <> rpeR point_distance_error_ratio pairs ref est.
+Proof. exact rpe_ratio_not_symmetric. Qed.
+Print Assumptions C02_ratio_depends_on_which_trajectory_is_the_reference.
